@@ -314,7 +314,26 @@ pub fn describe(q: &Query, t: &Table, layout: &Layout) -> String {
     fn go(e: &Expr, col: &dyn Fn(usize) -> String, t: &Table, layout: &Layout, ctx: Option<usize>) -> String {
         match e {
             Expr::Col(c) => col(*c),
-            Expr::Const(V::Int(k)) => if k.unsigned_abs() >= 1 << 62 { "K".into() } else { "k".into() },
+            Expr::Const(V::Int(k)) => {
+                // `k^`: translating the constant into the offset encoding of the column it is compared
+                // with (k - min of the partition) leaves i64 in some partition (finding Q10)
+                let overflows = ctx.map_or(false, |c| {
+                    let mut start = 0;
+                    let mut o = false;
+                    for len in &layout.partitions() {
+                        let min = t.cols[c].cells[start..start + len].iter().filter_map(|v| if let V::Int(x) = v { Some(*x) } else { None }).min();
+                        if let Some(m) = min {
+                            let d = *k as i128 - m as i128;
+                            if d < i64::MIN as i128 || d > i64::MAX as i128 {
+                                o = true;
+                            }
+                        }
+                        start += len;
+                    }
+                    o
+                });
+                if overflows { "k^".into() } else if k.unsigned_abs() >= 1 << 62 { "K".into() } else { "k".into() }
+            }
             Expr::Const(V::Str(s)) => {
                 // is the string absent from the dictionary of some batch of the column it is compared with?
                 let absent = ctx.map_or(false, |c| {
